@@ -43,6 +43,9 @@ func marginalFamily(q bool) ([]mspec, func(mspec) (*roaring.Bitmap, *model.Set32
 			}
 		}
 	}
+	// a full chunk (run-encoded, and as a bitmap chunk): receivers whose intersection shortcuts hand back "a copy of
+	// the argument", whatever form the argument is in
+	mspecs = append(mspecs, mspec{R: 65536, Opt: true}, mspec{R: 65536})
 	mbuild := func(sp mspec) (*roaring.Bitmap, *model.Set32) {
 		b, m := roaring.New(), model.New32()
 		base := uint64(3) << 16
